@@ -49,7 +49,8 @@ def observe(resolver):
     from nix_manipulator.exceptions import ResolutionError
     try:
         v = resolver()
-        txt = v.rebuild()
+        # a binding value stored through the mapping API may be a plain Python value
+        txt = v.rebuild() if hasattr(v, "rebuild") else repr(v)
         return ("value", frozenset(int(x) for x in ID_RE.findall(txt)))
     except ResolutionError as exc:
         return ("ResolutionError", str(exc)[:120])
@@ -95,7 +96,11 @@ def call_resolver(src, path):
     from nix_manipulator.resolution import scopes_for_owner, set_resolution_context
 
     def go():
+        from nix_manipulator.expressions.function.call import FunctionCall
         call = src.expr
+        if not isinstance(call, FunctionCall):
+            # the call is the value of `y` in a set that has scopes of its own
+            call = src["y"]
         scopes = scopes_for_owner(call)
         fn = call.name
         while isinstance(fn, Parenthesis):
@@ -124,6 +129,8 @@ def classify(prog, path, exp, res, all_ids, leg):
     key = {"leg": leg, "expected": exp[0], "via": feats.get("via", "?"),
            "lexical": feats.get("lexical", "?"),
            "with_inside_lexical": feats.get("with_inside_lexical", "?")}
+    if getattr(prog, "alias", None) is not None:
+        key["alias_under_with"] = "yes" if any(f.kind == "with" for f in prog.root.wrappers) else "no"
     if res[0] == "exc":
         key["effect"] = "undocumented-exception"
         key["exc"] = res[1]
@@ -151,11 +158,13 @@ def classify(prog, path, exp, res, all_ids, leg):
 
 def plan(tier, seed):
     if tier == "quick":
-        shards = [{"leg": "doc", "n": 900} for _ in range(10)] + \
+        shards = [{"leg": "doc", "n": 900} for _ in range(8)] + \
+                 [{"leg": "alias", "n": 900} for _ in range(2)] + \
                  [{"leg": "call", "n": 1500} for _ in range(3)] + \
                  [{"leg": "history", "n": 2500} for _ in range(3)]
     else:
-        shards = [{"leg": "doc", "n": 6000} for _ in range(40)] + \
+        shards = [{"leg": "doc", "n": 6000} for _ in range(36)] + \
+                 [{"leg": "alias", "n": 6000} for _ in range(8)] + \
                  [{"leg": "call", "n": 9000} for _ in range(12)] + \
                  [{"leg": "history", "n": 12000} for _ in range(12)]
     for i, s in enumerate(shards):
@@ -220,11 +229,12 @@ def run_docs(spec, res, leg):
     obs = _new_obs(res)
     nontriv = set()
     codes = _step_codes()
-    factory = doc_resolver if leg == "doc" else call_resolver
+    factory = call_resolver if leg == "call" else doc_resolver
     cov = FunctionCoverage()
     cov.start()
     for i in range(spec["n"]):
-        prog = S.generate(rng, call=(leg == "call"))
+        # alias leg: the document body is a name bound to the set in one of its let layers
+        prog = S.generate(rng, call=(leg == "call"), alias=(leg == "alias"))
         wal_text(prog.text)
         if cst.has_error(prog.text):
             res["inconclusive"] += 1
